@@ -44,6 +44,20 @@ list) x rotating inputs (containers, a text, lists and dicts of strings), in
 environments where every policy documented in docs/api.rst "Policies" has a
 non-default, type-correct value (two sets: sequence-valued policies as list and
 as tuple); the string-valued data also runs under the default policies.
+*Entry points*: the groups above all render through Template.render(**data).
+Every other documented way to run a template on a caller-supplied mapping is
+exercised too (vt/gen/c19_entries.py): render(mapping), render(mapping, **kw),
+generate, stream (plain / buffered), make_module(vars [, shared] [, locals]),
+new_context(vars [, shared=True|False] [, locals]) + root_render_func, the same
+Context rendered twice, blocks[name](context), render_async / generate_async /
+make_module_async / async root_render_func and blocks, sync entry points on an
+async environment - x 41 templates whose constructs make the engine derive
+contexts or bind names (include / import-with-context inside for, with, macro,
+call block, filter and set blocks; scoped blocks in loops, in a parent template;
+a pass_context callable from the data called inside for / with / macro / call
+block; top-level set / for / macro / import that reuse or add names; a
+read-only control).  Here the caller's mapping ITSELF (top-level key set and
+every value) and the caller's `locals` mapping are compared before/after.
 After each render every context value is compared with the deep copy taken
 before it; the comparison is type-exact at every level (1 != '1' != True).
 """
@@ -54,12 +68,15 @@ import collections.abc
 import copy
 import inspect
 
+from vt.gen import c19_entries as E
+
 PID = "C19"
 LEVEL = "exploration"
 TECHNIQUE = ("before/after deep comparison of context containers (default and fully non-default "
              "environment policies) + execution-derived mutator ground truth, "
              "enumerated method x argument x path table (on instances and through type objects), filter x "
-             "argument table, and attribute targets in every name-binding statement form")
+             "argument table, attribute targets in every name-binding statement form, and the caller's "
+             "mapping itself compared over every documented entry point x context-deriving construct")
 RULE = ("method cases: (container type, target expression, name from dir(type), argument tuple "
         "from a fixed pool, template path, sync/async), enumerated completely; filter cases: "
         "(filter from env.filters, container input, positional container argument or keyword "
@@ -92,7 +109,17 @@ RULE = ("method cases: (container type, target expression, name from dir(type), 
         "inputs, text, list/dict of strings] x policy set [two sets giving every policy documented in "
         "docs/api.rst a non-default type-correct value; the default policies for the string-valued data] "
         "x consumption form x sync/async x autoescape), every (filter, parameter, value) on every seed "
-        "(quick: one policy set, form and sync/autoescape combination per row, rotating); (method, "
+        "(quick: one policy set, form and sync/autoescape combination per row, rotating); entry-point "
+        "cases: (41 templates [include / import with context inside for, for-else, filtered / recursive / "
+        "unpacking / nested for, with, macro, call block, filter block, set block; scoped block in for / with / "
+        "nested for / parent template; self.block() in a loop; pass_context callable from the data in for / "
+        "with / macro / call block / filter argument; top-level set, block set, for target, macro, import, "
+        "from-import reusing a data name or adding one; read-only control] x 23 entry points [render(**kw), "
+        "render(mapping), render(mapping, **kw), generate, stream, buffered stream, make_module(vars / shared / "
+        "locals), new_context(vars / shared=True / locals) + root_render_func, one shared Context rendered "
+        "twice, blocks[name](context) shared / not shared, render_async, generate_async, make_module_async] x "
+        "sync/async environment x autoescape), enumerated completely (quick: one autoescape setting per row, "
+        "rotating); the mapping passed in and the locals mapping are what is compared; (method, "
         "filter and earlier set-statement cases "
         "in quick: a seed-rotated "
         "quarter of the non-mutating argument tuples and one direct consumption form per row, "
@@ -116,6 +143,7 @@ ASSUMPTIONS = [
     "attribute targets: only the before/after comparison of the context data is judged, never which exception is raised; a statement form counts as exercised when it compiles (the namespace controls show how many forms run to completion)",
     "policies: only the policies documented in docs/api.rst are configured (the counter policies_set_non_default reports how many of the documented names the two sets cover); values are type-correct per that documentation (json.dumps_function is a function with the signature of json.dumps); the policy objects themselves are not compared, only the context data",
     "environments of this check load the do and i18n extensions, a DictLoader with one macro library and a globals entry holding the four container types",
+    "entry points: the caller's mapping is an exact dict reachable from the context (with shared=True it IS the context's parent, 'passed as is'; the implementation's own comment says 'we don't want to modify the dict passed'); the `locals` parameter of new_context / make_module is documented ('a dict of local variables for internal usage') and is passed a fresh dict; templates of this group use no globals (a shared context has none) and receive a pass_context callable as data; blocks are called with a fresh context per block",
     "autoescape is an environment option (autoescape=True/False); per-template autoescape blocks are not generated",
 ]
 NSHARDS = {"quick": 16, "thorough": 16}
@@ -146,7 +174,13 @@ FLOORS = {
                            "policy_table_cases:non-default-policies": 370,
                            "policy_table_cases:default-policies": 210,
                            "policy_table_keyword_container_cases": 220,
-                           "policies_set_non_default": 4}},
+                           "policies_set_non_default": 4,
+                           "entry_cases": 700, "entry_outcome:ok": 650,
+                           "entry_scope_construct_cases": 500,
+                           "entry_shared_scope_construct_ok": 160, "entry_locals_cases": 120,
+                           "entry_async_cases": 350, "entry_controls_ok": 12,
+                           **{"entry_ok:" + e: (9 if E.ENTRIES[e][0] != "both" else 18)
+                              for e in E.ENTRIES}}},
     "thorough": {"evaluations": 60000, "distinct": 60000,
                  "counters": {"method_cases": 30000, "mutating_attempts": 8000,
                               "security_errors": 6000, "filter_cases": 30000,
@@ -172,7 +206,13 @@ FLOORS = {
                               "policy_table_cases:non-default-policies": 11800,
                               "policy_table_cases:default-policies": 3400,
                               "policy_table_keyword_container_cases": 7000,
-                              "policies_set_non_default": 4}},
+                              "policies_set_non_default": 4,
+                              "entry_cases": 2000, "entry_outcome:ok": 1900,
+                              "entry_scope_construct_cases": 1500,
+                              "entry_shared_scope_construct_ok": 500, "entry_locals_cases": 400,
+                              "entry_async_cases": 1000, "entry_controls_ok": 12,
+                              **{"entry_ok:" + e: (36 if E.ENTRIES[e][0] != "both" else 72)
+                                 for e in E.ENTRIES}}},
 }
 
 TYPES = {"list": list, "dict": dict, "set": set, "deque": collections.deque}
@@ -368,7 +408,8 @@ def get_env(is_async, autoescape=False, policies="default"):
         env = ImmutableSandboxedEnvironment(enable_async=is_async,
                                             extensions=["jinja2.ext.do", "jinja2.ext.i18n"],
                                             cache_size=0, autoescape=autoescape,
-                                            loader=DictLoader({"alib": "{% macro am() %}x{% endmacro %}"}))
+                                            loader=DictLoader({"alib": "{% macro am() %}x{% endmacro %}",
+                                                               **E.AUX}))
         # type objects an application registered as globals
         env.globals["gtypes"] = {"list": list, "dict": dict, "set": set,
                                  "deque": collections.deque}
@@ -1129,12 +1170,136 @@ def statement_case(ctx, case, count=True):
                            f"{[data.get(k) for k in ch]!r}; outcome {outcome}: {msg[:100]!r}", case)
 
 
+def _ctxfn_impl(context):
+    return f"({context.get('cur')}{len(context.get_exported())})"
+
+
+_ctxfn = []
+
+
+def ctxfn():
+    """a pass_context callable handed in as data (read-only use of the context)"""
+    if not _ctxfn:
+        from jinja2 import pass_context
+
+        _ctxfn.append(pass_context(_ctxfn_impl))
+    return _ctxfn[0]
+
+
+def entry_case(ctx, case, count=True):
+    """One template run through one documented entry point on a caller-supplied
+    mapping: the mapping itself (key set and values) and the caller's `locals`
+    mapping must equal their copies afterwards."""
+    from jinja2.exceptions import SecurityError
+
+    construct, entry, is_async = case["construct"], case["entry"], case["async"]
+    autoescape = bool(case.get("autoescape", False))
+    source = E.TEMPLATES[construct]
+    env = get_env(is_async, autoescape)
+    data, snap = make_data(), make_data()
+    data["ctxfn"] = snap["ctxfn"] = ctxfn()
+    loc, loc_snap = E.make_locals(), E.make_locals()
+    tmpl = env.from_string(source)
+    try:
+        out = E.ENTRIES[entry][1](tmpl, data, loc, is_async)
+        outcome = "ok"
+    except SecurityError as e:
+        out, outcome = str(e), "security"
+    except Exception as e:
+        out, outcome = f"{type(e).__name__}: {e}"[:200], "other"
+    if count:
+        ctx.ev()
+        ctx.count("entry_cases")
+        ctx.count("entry_cases:" + entry)
+        ctx.count("entry_outcome:" + outcome)
+        if outcome == "ok":
+            ctx.count("entry_ok:" + entry)
+        if construct in E.SCOPE_CONSTRUCTS:
+            ctx.count("entry_scope_construct_cases")
+            if entry in E.SHARED_ENTRIES:
+                ctx.count("entry_shared_scope_construct_cases")
+                if outcome == "ok":
+                    ctx.count("entry_shared_scope_construct_ok")
+        if entry in E.LOCALS_ENTRIES:
+            ctx.count("entry_locals_cases")
+        ctx.count("comparisons")
+        if is_async:
+            ctx.count("async_renders")
+            ctx.count("entry_async_cases")
+        if autoescape:
+            ctx.count("autoescape_renders")
+        ctx.dist(["e", construct, entry, is_async, autoescape])
+    ch = changed_vars(data, snap)
+    lch = changed_vars(loc, loc_snap)
+    full = dict(case, source=source)
+    if ch:
+        added = [k for k in ch if k not in snap]
+        ctx.violation(f"entry:{entry}/{E.family(construct)}",
+                      f"{entry} on an immutable sandbox (async={is_async}, autoescape={autoescape}) with "
+                      f"template {source!r} modified the caller's mapping: "
+                      + (f"new keys {added!r} (values of type "
+                         f"{[type(data[k]).__name__ for k in added]!r}); " if added else "")
+                      + f"changed {[k for k in ch if k in snap]!r}; outcome {outcome}: {out[:100]!r}", full)
+    if lch:
+        ctx.violation(f"entry-locals:{entry}/{E.family(construct)}",
+                      f"{entry} (async={is_async}) with template {source!r} modified the caller's locals "
+                      f"mapping: {lch!r} -> {[loc.get(k) for k in lch]!r}; outcome {outcome}", full)
+
+
+def entry_control(ctx):
+    """Self-test: every construct renders through render(**kw) on both a sync and an
+    async environment (so the entry-point table exercises live templates), and the
+    comparison notices a key added to the mapping."""
+    bad = []
+    for is_async in (False, True):
+        env = get_env(is_async, False)
+        for construct, source in E.TEMPLATES.items():
+            data = make_data()
+            data["ctxfn"] = ctxfn()
+            try:
+                out = env.from_string(source).render(**data)
+                if not out:
+                    bad.append(f"{construct}: empty output")
+            except Exception as e:
+                bad.append(f"{construct}: {type(e).__name__}: {e}"[:160])
+    d, s = make_data(), make_data()
+    d["item"] = 1
+    if changed_vars(d, s) != ["item"]:
+        bad.append("comparison does not report an added key")
+    if bad:
+        ctx.inconc("entry-point self-test failed: " + "; ".join(bad[:4]))
+    else:
+        ctx.count("entry_controls_ok")
+
+
 def run(ctx):
     quick = ctx.tier == "quick"
     probe = make_data()
     if changed_vars(probe, copy.deepcopy(probe)) or changed_vars(make_data(), probe):
         ctx.inconc("harness: make_data() is not reproducible / not equal to its deep copy")
         return
+    # ---- entry points x constructs that derive contexts / bind names
+    entry_control(ctx)
+    ei = 0
+    esampled = 0
+    for construct in E.TEMPLATES:
+        for entry in E.ENTRIES:
+            for is_async in (False, True):
+                if not E.applicable(entry, is_async):
+                    continue
+                ei += 1
+                if not ctx.mine(ei):
+                    continue
+                for ae in (False, True):
+                    # quick: autoescape alternating by row, rotating with the seed
+                    if quick and ae != ((ei // ctx.nshards + ctx.seed) % 2 == 0):
+                        continue
+                    case = {"kind": "entry", "construct": construct, "entry": entry,
+                            "async": is_async, "autoescape": ae}
+                    entry_case(ctx, case)
+                    if esampled < 1 and ctx.shard in (2, 3) and "shared" in entry:
+                        esampled += 1
+                        ctx.sample(dict(case, source=E.TEMPLATES[construct]))
     idx = 0
     names_seen = set()
     # ---- complete method table
@@ -1415,5 +1580,7 @@ def replay(ctx, case):
         filter_case(ctx, case, count=False)
     elif k == "statement":
         statement_case(ctx, case, count=False)
+    elif k == "entry":
+        entry_case(ctx, case, count=False)
     else:
         composed_case(ctx, case, count=False)
